@@ -91,7 +91,7 @@ static Integrator* makeInteg(int which, const System& sys) {
 }
 
 static std::string g_tag;
-struct Worst { double q = 0, quat = 0, u = 0, presc = 0; int n = 0; bool cascaded = false; };
+struct Worst { double q = 0, quat = 0, u = 0, presc = 0; int n = 0; bool cascaded = false, diverged = false; };
 
 // one record per returned state
 static void emitState(const Spec& S, const Model& M, const Integrator& I, const State& st, int status, Worst* acc,
@@ -145,10 +145,18 @@ static void emitState(const Spec& S, const Model& M, const Integrator& I, const 
     double rq = norm(a) / tol, rquat = norm(b) / tol, ru = norm(c) / tol;
     // O: the harness's own floating-point evaluation of the acceptance contract (the driver re-evaluates it exactly)
     vh::O("st").i((!must || (rq <= slack && rquat <= slack && ru <= slack)) ? 1 : 0).emit();
-    if (must && unboundedClass && !(std::isfinite(rq) && std::isfinite(rquat) && std::isfinite(ru))) {
-        // the unprojected run diverged to a non-finite state within one step: report the sentinel ratio 1e4 (same finding)
-        vh::D(famk + ".nonfinite_state");
-        if (!std::isfinite(rq)) rq = 1e4; if (!std::isfinite(rquat)) rquat = 1e4; if (!std::isfinite(ru)) ru = 1e4;
+    // sessions of the three "unprojected state handed out" families can diverge to non-finite values; a non-finite state of ANY kind
+    // in such a session is reported once, with the sentinel ratio 500, under the family's step key, and nothing after it is evaluated
+    const bool contaminable = S.integ >= 8 || nonConv || fam == "AbstractIntegratorRep.minStepForced";
+    const bool finite = std::isfinite(rq) && std::isfinite(rquat) && std::isfinite(ru);
+    if (must && acc->diverged) { vh::D(fam2 + ".after_divergence"); return; }
+    if (must && contaminable && !finite) {
+        acc->diverged = true;
+        vh::D(fam2 + ".nonfinite_state");
+        const std::string k = fam2 + ".step";
+        vh::P("returned_states_satisfy_position_constraints", k + ".qerr", 500.0, slack);
+        vh::P("returned_states_satisfy_velocity_constraints", k + ".uerr", 500.0, slack);
+        return;
     }
     if (must && acc->cascaded && unboundedClass) vh::D(famk + ".after_first_violation");
     if (must && !(acc->cascaded && unboundedClass)) {
